@@ -383,15 +383,15 @@ class SoapClient(SoapClientProtocol):
                 self._netloc,
                 path,
                 response.status,
-                content.decode('utf-8'),
+                content.decode('utf-8', errors='replace'),
             )
             try:
                 tmp = self._msg_reader.read_received_message(content)
-            except etree.XMLSyntaxError as ex:
-                raise HTTPReturnCodeError(response.status, response.reason, None) from ex
-            else:
                 soap_fault = Fault.from_node(tmp.p_msg.msg_node)
-                raise HTTPReturnCodeError(response.status, response.reason, soap_fault)
+            except Exception as ex:  # noqa: BLE001
+                # the body of an error response need not be a soap fault (html error page, empty, not utf-8, ...)
+                raise HTTPReturnCodeError(response.status, response.reason, None) from ex
+            raise HTTPReturnCodeError(response.status, response.reason, soap_fault)
 
         response_headers = {k.lower(): v for k, v in response.getheaders()}
 
